@@ -293,7 +293,9 @@ func GetOutputNodes(root *html.Node) []*html.Node {
 		case html.ElementNode:
 			// Like the main walk, skip elements that are not rendered (hidden,
 			// display:none, script, style, ...) together with their subtrees.
-			if !IsProbablyVisible(node) {
+			// Scripts and styles are skipped by name as well, because an inline
+			// `display` style makes them "visible" for the check above.
+			if tagName := dom.TagName(node); tagName == "script" || tagName == "style" || !IsProbablyVisible(node) {
 				return false
 			}
 
